@@ -34,6 +34,8 @@ var c06ReqCands = []string{
 	"||ads.com^$dnsrewrite=1.2.3.4,badfilter", "@@||ads.com^$dnsrewrite,badfilter",
 	// rewrites of record types without a value parser are rewrites all the same
 	"||ads.com^$dnsrewrite=NOERROR;NS;ns1.example.net", "||ads.com^$dnsrewrite=NOERROR;SOA;x,important", "||ads.com^$dnsrewrite=NOERROR;CAA;0 issue x",
+	// a stealth exception stays special-purpose whatever other flags it carries
+	"@@||ads.com^$stealth,important", "@@||ads.com^$stealth,match-case", "@@||ads.com^$stealth,image",
 }
 
 var c06SrcCands = []string{
